@@ -2430,6 +2430,7 @@ def normalize_module(tree: ast.Module, extern=None) -> ast.Module:
                 # (local functions handed to a worker that is now in place)
                 n2.inline_local_defs(n)
                 n2.propagate_local_constants(n)
+                n2.local_partials(n)
                 n2.inline_single_use_generators(n)
                 n2.next_loops(n)
         tree = Idioms().visit(tree)
@@ -2475,6 +2476,7 @@ def normalize_module(tree: ast.Module, extern=None) -> ast.Module:
     tree = n2.Idioms3().visit(tree)
     for n in ast.walk(tree):
         if isinstance(n, ast.FunctionDef):
+            n2.local_partials(n)
             n2.indexed_tuples(n)
     # (records handed to a private helper are local again once the helper
     # was placed at its call site)
